@@ -165,6 +165,19 @@ def cubicSingle (k : Nat) (p : Rat × Rat × GQ) : Mat :=
   let ij := match k with | 0 => (5, 6) | 1 => (3, 6) | _ => (3, 5)
   setBlock (Mat.identity 8) ij.1 ij.2 (rotA p.1) (rotB p.2.1 p.2.2) (rotC p.2.1 p.2.2) (rotA p.1)
 
+/-- the Hermitian 3×3 block `nontrivial_part` of `CubicFermionicSimulationGate._eigen_components`
+(basis `|011⟩, |101⟩, |110⟩` = indices 3, 5, 6), general weights -/
+def cubicBlock (w0 w1 w2 : GQ) : Mat :=
+  [[0, GQ.conj w2, GQ.conj w1], [w2, 0, GQ.conj w0], [w1, w0, 0]]
+
+/-- `CubicFermionicSimulationGate.qubit_generator_matrix`: the block placed on indices 3, 5, 6 -/
+def cubicGenerator (w0 w1 w2 : GQ) : Mat :=
+  let idx : Nat → Option Nat := fun r => if r = 3 then some 0 else if r = 5 then some 1 else if r = 6 then some 2 else none
+  (List.range 8).map fun r => (List.range 8).map fun k =>
+    match idx r, idx k with
+    | some a, some b => ((cubicBlock w0 w1 w2).getD a []).getD b 0
+    | _, _ => 0
+
 end C14
 end Model
 end OFV
